@@ -5,7 +5,6 @@ import (
 	"strings"
 	"time"
 
-	"github.com/nyaruka/gocommon/dates"
 	"github.com/nyaruka/gocommon/stringsx"
 	"github.com/nyaruka/goflow/assets"
 	"github.com/nyaruka/goflow/envs"
@@ -145,7 +144,7 @@ func numberComparison(objectVal decimal.Decimal, op Operator, queryVal decimal.D
 }
 
 func dateComparison(objectVal time.Time, op Operator, queryVal time.Time) bool {
-	utcDayStart, utcDayEnd := dates.DayToUTCRange(queryVal, queryVal.Location())
+	utcDayStart, utcDayEnd := dayToUTCRange(queryVal)
 
 	switch op {
 	case OpEqual:
@@ -163,6 +162,24 @@ func dateComparison(objectVal time.Time, op Operator, queryVal time.Time) bool {
 	default:
 		panic(fmt.Sprintf("can't query date fields with %s", op))
 	}
+}
+
+// returns the UTC range of the calendar day of the given time in its own location. Days with a daylight savings
+// transition aren't 24 hours long so the end is the start of the next calendar day.
+func dayToUTCRange(d time.Time) (time.Time, time.Time) {
+	return startOfDay(d.Year(), d.Month(), d.Day(), d.Location()), startOfDay(d.Year(), d.Month(), d.Day()+1, d.Location())
+}
+
+// returns the first instant of the given calendar day, which isn't always midnight because that can be skipped or
+// repeated by a daylight savings transition. Noon always exists so we work backwards from there.
+func startOfDay(year int, month time.Month, day int, loc *time.Location) time.Time {
+	noon := time.Date(year, month, day, 12, 0, 0, 0, loc)
+	start := noon.Add(-12 * time.Hour)
+
+	_, noonOffset := noon.Zone()
+	_, startOffset := start.Zone()
+
+	return start.Add(time.Duration(noonOffset-startOffset) * time.Second).UTC()
 }
 
 // performs a prefix match which should be equivalent to an edge_ngram filter in ES
